@@ -155,4 +155,33 @@ Proof.
     rewrite <- (firstn_skipn mt ps), key_suffix_app, app_assoc in Hcon.
     eapply contain_prefix_of; eauto.
 Qed.
+(* stream destinations that reuse the source's key bytes: with the same non-empty key on both measurements this IS the
+   destination's own routing of any row carrying the same key pairs *)
+Lemma route_reuse_is_route : forall csrc cdst g psrc pdst,
+  c_sk csrc = c_sk cdst -> c_sk cdst <> [] -> c_typ cdst = Hash -> wkey cdst pdst = wkey csrc psrc ->
+  route_reuse hash csrc cdst g psrc = route_in hash cdst g pdst.
+Proof.
+  intros csrc cdst g psrc pdst Hk Hne Ht Hw. unfold route_reuse, route_in. rewrite Hw, Ht.
+  destruct (wkey csrc psrc) as [ps|]; [|reflexivity]. unfold hash_arg. rewrite Hk.
+  destruct (c_sk cdst); [congruence|reflexivity].
+Qed.
+
+Theorem stream_reuse_prune_sound_proof : forall v csrc cdst g cond psrc pdst s,
+  v_or v = true -> v_reset v = true ->
+  (v_and v = true \/ match cond with Some e => parser_image e | None => True end) ->
+  c_typ cdst = Hash -> wf_group cdst g -> wf_point pdst ->
+  (c_sk cdst = [] \/ (c_sk csrc = c_sk cdst /\ wkey cdst pdst = wkey csrc psrc)) ->
+  route_reuse hash csrc cdst g psrc = Some s -> eval_cond cdst cond pdst = true ->
+  In s (target_group hash v cdst g cond).
+Proof.
+  intros v csrc cdst g cond psrc pdst s Hor Hres Hok Ht Hwf Hwp Hcase Hr Hev.
+  destruct (c_sk cdst) as [|k0 sk0] eqn:Esk.
+  - unfold target_group. rewrite Esk. unfold route_reuse in Hr. destruct (wkey csrc psrc); [|discriminate]. rewrite Ht in Hr.
+    apply shard_for_spec in Hr as [i [Hi Hn]]. unfold wf_group in Hwf. rewrite Ht in Hwf.
+    unfold all_alive. apply in_flat_map. exists i. split; [apply Hwf; auto|]. rewrite Hn. left; reflexivity.
+  - destruct Hcase as [Hc|[Hk Hw]]; [congruence|].
+    assert (Hne : c_sk cdst <> []) by (rewrite Esk; discriminate).
+    rewrite <- Esk in Hk. rewrite (route_reuse_is_route csrc cdst g psrc pdst Hk Hne Ht Hw) in Hr.
+    eapply target_group_sound; eauto.
+Qed.
 End Builders.
